@@ -699,10 +699,14 @@ impl AST {
                     }
                 }
             }
-            TemplatePart::Expression(expr) => {
+            TemplatePart::Expression(mut expr) => {
                 if place_holder {
                     unreachable!();
                 } else {
+                    // This expression was parsed out of the format string just now, after
+                    // the rewriter went over the file: give its import and include paths
+                    // the same treatment.
+                    Rewriter::new(root).walk_expression(&mut expr);
                     Self::translate_expr(expr, ops, root);
                     ops.push(Op::Render, pos);
                 }
